@@ -7,7 +7,17 @@ import "testing"
 // off fault knobs, truncate the tape and zero its entries ("0" always means
 // the first alternative: keep running the lowest-named enabled task, deliver
 // whole frames, no clock jump).
-func shrinkReplay(t *testing.T, pd *propDef, rf *ReplayFile, budget int) (*ReplayFile, int) {
+// runFn executes one candidate and reports what happened.
+type runFn func(p *Plan, tape []uint32) (viol *Violation, usedTape []uint32, turnLog []int)
+
+func inProcessRunner(t *testing.T, pd *propDef) runFn {
+	return func(p *Plan, tape []uint32) (*Violation, []uint32, []int) {
+		res := RunPlan(t, p, replayTape(tape), pd.chk, false)
+		return res.Viol, res.Tape, res.TurnLog
+	}
+}
+
+func shrinkReplay(t *testing.T, pd *propDef, rf *ReplayFile, budget int, run runFn) (*ReplayFile, int) {
 	fp := rf.Viol.Fp
 	best := &ReplayFile{Property: rf.Property, Seed: rf.Seed, Plan: rf.Plan.clone(), Tape: append([]uint32(nil), rf.Tape...), Viol: rf.Viol}
 	runs := 0
@@ -16,9 +26,9 @@ func shrinkReplay(t *testing.T, pd *propDef, rf *ReplayFile, budget int) (*Repla
 			return false
 		}
 		runs++
-		res := RunPlan(t, p, replayTape(tape), pd.chk, false)
-		if res.Viol != nil && res.Viol.Fp == fp {
-			best = &ReplayFile{Property: rf.Property, Seed: rf.Seed, Plan: p, Tape: res.Tape, Viol: res.Viol}
+		viol, used, _ := run(p, tape)
+		if viol != nil && viol.Fp == fp {
+			best = &ReplayFile{Property: rf.Property, Seed: rf.Seed, Plan: p, Tape: used, Viol: viol}
 			return true
 		}
 		return false
@@ -26,11 +36,11 @@ func shrinkReplay(t *testing.T, pd *propDef, rf *ReplayFile, budget int) (*Repla
 	// pin the order in which the scripts advanced, so that dropping an item
 	// does not reshuffle everything after it
 	{
-		res := RunPlan(t, best.Plan, replayTape(best.Tape), pd.chk, false)
+		viol, _, turnLog := run(best.Plan, best.Tape)
 		runs++
-		if res.Viol != nil && res.Viol.Fp == fp && len(best.Plan.Knobs.Order) == 0 {
+		if viol != nil && viol.Fp == fp && len(best.Plan.Knobs.Order) == 0 {
 			p := best.Plan.clone()
-			p.Knobs.Order = append([]int(nil), res.TurnLog...)
+			p.Knobs.Order = append([]int(nil), turnLog...)
 			try(p, best.Tape)
 		}
 	}
